@@ -510,7 +510,19 @@ class C16Engine(Engine):
             o = self._gen_objects(cfg, cn, alphabet)
             objects.update(o)
             n = wl.randint(2, 5) if ncl == 1 else wl.randint(1, 4)
+            if tier == "thorough":
+                n += wl.randint(0, 2)
             clients[cn] = [self._gen_op(wl, cn, o, alphabet) for _ in range(n)]
+        if "w1" in alphabet and ncl >= 2 and cfg.random() < 0.6:
+            # two distance objects on grids of the SAME shape but different voxel sizes / weights / methods in one
+            # process (state shared through module-level caches would show here)
+            twin = copy.deepcopy(objects["c0.w0"])
+            twin["cfg"]["voxel_size"] = [cfg.choice([0.25, 0.5, 1.0, 2.0, 4.0]) for _ in twin["cfg"]["shape"]]
+            twin["cfg"]["method"] = cfg.choice(["newton", "bregman"])
+            twin["cfg"].pop("update_every", None)
+            if cfg.random() < 0.5:
+                twin["cfg"]["weight"] = {"kind": "const", "val": cfg.choice([0.5, 2.0])}
+            objects["c1.w0"] = twin
         order = [c for c, p in clients.items() for _ in p]
         sch.shuffle(order)
         faults = []
@@ -626,7 +638,10 @@ class C16Engine(Engine):
                                 params_set=params_before if op["op"] in ("JACOBI", "MG") else model.get(target))
             if nontrivial:
                 diffs = sorted({kk for p in prior for kk in desc if p.get(kk) != desc.get(kk)})
-                out.nontrivial.add(f"{'>'.join(p['op'] for p in prior[-3:])}>{op['op']}|{','.join(diffs)}|"
+                def short(d):
+                    return d["op"] + "(" + ",".join(f"{k}={d[k]}" for k in ("mu", "omega", "ell", "h", "dim", "adaptive", "pair")
+                                                    if d.get(k) is not None) + ")"
+                out.nontrivial.add(f"{'>'.join(short(p) for p in prior[-2:])}>{short(desc)}|{','.join(diffs)}|"
                                    f"{'default' if not target else target.split('.')[-1]}|{int(after_fault)}")
                 out.counters["probe:shared-state-reused-with-different-params"] += 1
             if after_fault:
